@@ -25,6 +25,10 @@
    * Query(r) is only taken when r's key is stored: a reader that is still "called" can do everything a reader
      that already sleeps can do (every sleeper is woken by a store, then queries again), so the sleeping branch
      adds no behaviours.
+   * ... and only at the last moment it can matter: immediately before r's own AwaitReturn event or immediately
+     before an Expire event of r's duty.  A stored value never changes until it expires (ValueStable) and no other
+     step looks at whether r is "called" or "done", so every earlier Query can be moved there.  Without this, m
+     readers woken by one Store give 2^m interleavings of their silent Query steps.
    * StoreEntry order is canonical when no remaining entry conflicts (then the result is order-independent). *)
 EXTENDS AggSigDB, TraceCommon
 VARIABLES known, expd
@@ -35,7 +39,11 @@ Quiet == ~wr.on /\ \A r \in DOMAIN rd : ~MustRet(r)
 UK == UNCHANGED <<known, expd>>
 TReset == IsEvent("Reset") /\ UNCHANGED vars /\ UK
 TAwaitCall == IsEvent("AwaitCall") /\ Quiet /\ AwaitCall(Ev.r, Ev.k) /\ UK
-TQuery == \E r \in DOMAIN rd : Query(r) /\ Stored(rd[r].k) /\ Silent /\ UK
+TQuery == \E r \in DOMAIN rd :
+            /\ Query(r) /\ Stored(rd[r].k) /\ Silent /\ UK
+            /\ l <= TLen
+            /\ \/ Ev.ev = "AwaitReturn" /\ Ev.r = r
+               \/ Ev.ev = "Expire" /\ Ev.d = rd[r].k.d
 TAwaitReturn ==
   /\ IsEvent("AwaitReturn")
   /\ IF Ev.got = Err
